@@ -281,12 +281,12 @@ func runC08(c c08Case) *Violation {
 		s := w.snap()
 		r := sendSegmented(c.Kind, tgt, units)
 		var seg model.Obs
-		seg.Accepts, seg.Bytes = w.observe(s)
+		resps, err := sess.Decode(r.Pkts)
+		seg.Accepts, seg.Bytes = w.observe(s, channelSuccesses(resps))
 		seg.Ended = r.Ended
 		if r.OpenStatus != 0 {
 			return viol("c08/open", "transport did not open: %s", r.OpenErr)
 		}
-		resps, err := sess.Decode(r.Pkts)
 		if err != nil {
 			return viol("c08/decode", "%v", err)
 		}
